@@ -2,12 +2,12 @@ package core
 
 import (
 	"bytes"
-	"io"
-	"log"
 	"crypto/sha1"
 	"encoding/json"
 	"flag"
 	"fmt"
+	"io"
+	"log"
 	"os"
 	"os/exec"
 	"path/filepath"
